@@ -501,6 +501,18 @@ def call_np(I, name, args, kwargs, node, fr):
                 else:
                     I.broadcast(dst, src, node, opname="copyto", inplace=True)
         return NoneV()
+    if name == "ix_":
+        items = []
+        n_ = len(args)
+        for i_, a_ in enumerate(args):
+            if isinstance(a_, Arr) and len(a_.axes) == 1:
+                items.append(Arr([a_.axes[0] if j_ == i_ else ONE for j_ in range(n_)], a_.elem, a_.space))
+            elif isinstance(a_, Lst):
+                el = a_.element()
+                items.append(Arr([a_.length if j_ == i_ else ONE for j_ in range(n_)], "i", getattr(el, "space", None)))
+            else:
+                return Top("ix_")
+        return Tup(items)
     if name == "fill_diagonal":
         x = args[0] if args else Top()
         if isinstance(x, Arr) and len(x.axes) == 2:
